@@ -30,6 +30,7 @@ ASSUMPTIONS = ["file names containing '//' or starting a network location are ou
 
 NAMES = ["out.json", "with space.prov", "ünï-ファイル.out", "a#b.json", "c d?e;f.json", "x:y.json", "q;p", "a?b#c",
          "sub/dir/deep.xml", "UPPER:CASE.TXT", "file.name.with.dots", "semi;colon?and#hash", "100%.json", "+plus+", "a:b:c",
+         "results%20v2.json", "a%23b.json", "%41.json", "p%2Fq.json", "{abs}/pct%3Fname.xml",
          "{abs}/abs.json", "{abs}/sp ace#1.json", "file://{abs}/via-file-url.json"]
 REFUSED = ["http://example.org/x.json", "ftp://host/file", "x://y/z"]
 
@@ -195,14 +196,21 @@ def run(tier, seed, log, model_runs=True, enlarged=False):
         ds = docs()
         fmts = ["json", "xml", "provn", "rdf"]
         cases = []
-        names = NAMES if tier == "thorough" else NAMES
+        names = list(NAMES)
+        # random local names over an alphabet of URL syntax, percent escapes, spaces and non-ASCII
+        alpha = ["a", "b", "Z", "1", " ", "#", "?", ";", ":", "%", "20", "%41", ".", "é", "+", "&", "=", "@", "~", "-", "_", "(", ","]
+        while len(names) < len(NAMES) + (25 if tier == "quick" else 400):
+            nm = "".join(rng.choice(alpha) for _ in range(rng.randrange(1, 9)))
+            if "//" in nm or nm.strip(" .") == "" or nm in names or nm.startswith((" ", "-")) or nm.endswith(" "):
+                continue
+            names.append(nm if rng.random() < 0.8 else "{abs}/" + nm)
         for name in names:
             for fmt in (fmts if tier == "thorough" else [rng.choice(fmts), "json"]):
                 for pre in (False, True):
                     d = ds[0] if tier == "quick" else rng.choice(ds)
                     cases.append((d, fmt, name, pre, None))
         # faults: at each successive write call and at the move
-        fault_names = ["a#b.json", "out.json", "{abs}/sp ace#1.json"] if tier == "quick" else NAMES[:8] + ["{abs}/sp ace#1.json"]
+        fault_names = ["a#b.json", "out.json", "{abs}/sp ace#1.json", "results%20v2.json"] if tier == "quick" else NAMES[:8] + ["{abs}/sp ace#1.json"]
         for name in fault_names:
             for fmt in fmts:
                 for pre in (False, True):
